@@ -715,7 +715,7 @@ pub fn gen_c13(rng: &mut Rng) -> Case {
   let outside = outside.as_str();
   target.push(outside.into());
   target.push("secret".into());
-  let kind = rng.below(22);
+  let kind = *rng.pick(&[0u64, 1, 2, 3, 4, 5, 6, 7, 8, 9, 10, 11, 12, 13, 13, 13, 14, 15, 16, 17, 18, 19, 20, 21]);
   let ups = vec!["..".to_string(); depth_up];
   // a long name made of multi-byte characters (diagnostics that abbreviate must not cut inside a character)
   let long_name = |rng: &mut Rng| -> String {
@@ -738,7 +738,13 @@ pub fn gen_c13(rng: &mut Rng) -> Case {
     10 => ups.iter().cloned().chain([long_name(rng), outside.to_string(), "secret".to_string()]).collect(),
     11 => vec![long_name(rng)].into_iter().chain(ups.iter().cloned()).chain(["..".to_string(), outside.to_string(), "secret".to_string()]).collect(),
     // an empty component ahead of the escape (a screen that trips over the empty one must still refuse, not crash)
-    13 => vec![String::new()].into_iter().chain(ups.iter().cloned()).chain([outside.to_string(), "secret".to_string()]).collect(),
+    // (first of all; or after an ordinary component, where a screen that stops at the empty one has seen nothing wrong yet;
+    // or in the middle of the climb)
+    13 => match rng.below(3) {
+      0 => vec![String::new()].into_iter().chain(ups.iter().cloned()).chain([outside.to_string(), "secret".to_string()]).collect(),
+      1 => vec!["sub".to_string(), String::new(), "..".to_string()].into_iter().chain(ups.iter().cloned()).chain([outside.to_string(), "secret".to_string()]).collect(),
+      _ => vec!["sub".to_string(), "..".to_string(), String::new()].into_iter().chain(ups.iter().cloned()).chain([outside.to_string(), "secret".to_string()]).collect(),
+    },
     14 | 15 | 19 => ups.iter().cloned().chain([outside.to_string(), "secret".to_string()]).collect(),
     // the parent-directory name padded with white space: an ordinary (if odd) name, so the file is simply not there
     17 => ups.iter().map(|u| format!("{u}{}", *rng.pick(&[" ", "\t", "  "]))).chain([outside.to_string(), "secret".to_string()]).collect(),
@@ -758,7 +764,7 @@ pub fn gen_c13(rng: &mut Rng) -> Case {
       vec!["<ABS>".to_string()]
     }
   };
-  if kind == 1 || kind == 3 || kind == 12 || kind == 20 || kind == 21 {
+  if kind == 1 || kind == 3 || kind == 12 || kind == 13 || kind == 20 || kind == 21 {
     c.tree.insert("sub".into(), Node::Dir);
   }
   let mut pos = rng.below(c.files.len() as u64 + 1) as usize;
